@@ -479,7 +479,7 @@ impl Monitor for C13 {
     }
     fn streams(&self, tier: Tier, budget: f64) -> Vec<Stream> {
         let n = match tier {
-            Tier::Quick => 40_000,
+            Tier::Quick => 120_000,
             Tier::Thorough => 2_000_000,
         };
         vec![Stream::new("base-mutants-independent", scaled(n, budget))]
